@@ -29,6 +29,12 @@ LA = "@link_attributes"
 NA_ = "@node_attributes"
 
 
+# NumPy calls whose result may be the argument itself or a view of it (no copy when dtype / layout already match)
+MAY_ALIAS_FUNCS = {"np.asarray", "numpy.asarray", "np.asanyarray", "numpy.asanyarray", "np.ravel", "numpy.ravel",
+                   "np.atleast_1d", "np.atleast_2d", "np.squeeze", "np.transpose", "np.reshape", "np.ascontiguousarray",
+                   "np.require", "np.swapaxes", "np.diagonal"}
+MAY_ALIAS_METHODS = {"view", "reshape", "ravel", "squeeze", "transpose", "swapaxes", "diagonal"}
+
 class MethodInfo:
     def __init__(self, cls, name, node, kind="method"):
         self.cls, self.name, self.node, self.kind = cls, name, node, kind   # kind: method|getter|setter|static|classmethod
@@ -455,6 +461,14 @@ class Analyzer:
             f = self.field_of(value)
             if f is not None:
                 self.aliases[t.id] = f
+            elif isinstance(value, ast.Call) and dotted(value.func) in MAY_ALIAS_FUNCS and value.args \
+                    and self.arg_target(value.args[0]) is not None:
+                # np.asarray(x) / np.ravel(x) / ... return x itself (or a view) whenever no conversion is needed
+                self.aliases[t.id] = self.arg_target(value.args[0])
+            elif isinstance(value, ast.Call) and isinstance(value.func, ast.Attribute) and value.func.attr in MAY_ALIAS_METHODS \
+                    and self.arg_target(value.func.value) is not None \
+                    and not (isinstance(value.func.value, ast.Call)):
+                self.aliases[t.id] = self.arg_target(value.func.value)
             elif isinstance(value, ast.Call):
                 # x = self.cached_method(): in-place edits of x hit the cached value of that method
                 fn = value.func
